@@ -52,3 +52,47 @@ def gen_cases(rng, tier):
     b, d2 = G.grp_cases(rng, tier)
     d1.update(d2)
     return a + b, d1
+
+
+def _names(l):
+    hdr, rows = vlib.parse_case(l)
+    return hdr[1], ["".join(chr(c) for c in r) for r in rows]
+
+
+def monitor(l, impl_rows, kv):
+    """model-independent oracle on REAL group expansions: the property statement itself"""
+    if not l.startswith("4 ") or not impl_rows:
+        return []
+    fails = []
+    nmand, names = _names(l)
+    rows = [[int(x) for x in r.split()] for r in impl_rows.split(" ; ")]
+    if len(rows) < 2 or rows[0][0] != 1 or rows[1][0] != 1:
+        return ["group or container struct is not #[repr(C)]"]
+    base = [rows[0][1:][i:i + 3] for i in range(0, len(rows[0]) - 1, 3)]
+    vt = [f for f in base if f[0] == 1]
+    if not base or base[-1][0] != 2:
+        fails.append("the container is not the last field of the group struct")
+    mand = [names[f[1]] for f in vt if f[2] == 0]
+    opt = [names[f[1]] for f in vt if f[2] == 1]
+    if [f[2] for f in vt] != [0] * len(mand) + [1] * len(opt):
+        fails.append("mandatory and optional vtable pointers are interleaved")
+    if sorted(mand) != mand or set(mand) != set(names[:nmand]):
+        fails.append("mandatory vtable pointers are %s, not the mandatory traits in name order" % mand)
+    if sorted(opt) != opt or set(opt) != set(names[nmand:]):
+        fails.append("optional vtable pointers are %s, not the optional traits in name order" % opt)
+    cont = [rows[1][1:][i:i + 3] for i in range(0, len(rows[1]) - 1, 3)]
+    if [f[0] for f in cont[:2]] != [3, 4]:
+        fails.append("container does not start with instance, context")
+    for r in rows[2:]:
+        mask = r[0]
+        cast, asref, asmut, into, check = r[1:4], r[4:7], r[7:10], r[10:13], r[13:16]
+        for nm, f in (("cast", cast), ("as_ref", asref), ("as_mut", asmut), ("into", into), ("check", check)):
+            if f[0] != 1:
+                fails.append("no %s function for the requested subset %s (traits given in another order than declared)" % (nm, bin(mask)))
+                break
+        else:
+            if cast[1] != mask or asref[1] != mask or asmut[1] != mask or into[1] != mask:
+                fails.append("subset %s: validated vtables cast=%s as_ref=%s as_mut=%s into=%s" % (bin(mask), bin(cast[1]), bin(asref[1]), bin(asmut[1]), bin(into[1])))
+            if cast[2] != mask or into[2] != mask:
+                fails.append("subset %s: the variant built by cast/into has non-null vtables %s / %s (or another field shape than the base struct)" % (bin(mask), cast[2], into[2]))
+    return fails[:4]
